@@ -107,6 +107,18 @@ def extra_cases(rng, quick):
             sched = np.where(np.arange(25) < 8, 3000.0, np.where(np.arange(25) < 16, top, 5000.0))
             out.append(dict(kind="single", table=tb, table_kind="shipped", pi=8000.0, pf=3000.0, nx=nx, times=tt, grid="quadratic", sched=[float(x) for x in sched],
                             sched_style="drawdown / shut-in at p_initial / drawdown" if top == 8000.0 else "drawdown / injection 1% above p_initial / drawdown"))
+    # staged grids: two runs of a schedule joined with `np.concatenate([stage1, stage1[-1] + stage2])`, stage2 starting at 0 - ONE repeated
+    # time stamp in the middle (a zero increment).  Non-decreasing, so admissible; the step there is still the step system's solution
+    # (identity matrix, right-hand side with the frac-face row set), not a copy of the stored level
+    for nx in (6, 25):
+        s1 = np.linspace(0, 0.6, 7) ** 2
+        s2 = np.linspace(0, 1.1, 9) ** 2
+        tt = np.concatenate([s1, s1[-1] + s2])
+        out.append(dict(kind="single", table=tb, table_kind="shipped", pi=8000.0, pf=2500.0, nx=nx, times=tt, grid="staged (one repeated time stamp)"))
+        out.append(dict(kind="ideal", pi=8000.0, pf=2500.0, nx=nx, times=tt, grid="staged (one repeated time stamp)"))
+        sched = np.where(np.arange(len(tt)) < len(s1), 4000.0, 1500.0)
+        out.append(dict(kind="single", table=tb, table_kind="shipped", pi=8000.0, pf=4000.0, nx=nx, times=tt, grid="staged (one repeated time stamp)",
+                        sched=[float(x) for x in sched], sched_style="stage 1 at 4000 psi, stage 2 at 1500 psi"))
     return out
 
 
